@@ -4,6 +4,7 @@ from hypothesis import strategies as st
 
 from .. import gen
 from ..exec import Exec
+from ..programs import NOVALUE
 
 ID = 'C01'
 LEVEL = 'exploration'
@@ -18,8 +19,8 @@ ASSUMPTIONS = [
     'transitions are observed through ENTERED_STATE callbacks while the process is open and through state sampling after every loop callback afterwards',
 ]
 BUDGET = {
-    'quick': {'enum': ['k1', 'k2', 'hooks'], 'hyp': 4000, 'shards': 8},
-    'thorough': {'enum': ['k1', 'k2', 'k3', 'hooks'], 'hyp': 160000, 'shards': 16},
+    'quick': {'enum': ['k1', 'k2', 'hooks', 'wc'], 'hyp': 4000, 'shards': 8},
+    'thorough': {'enum': ['k1', 'k2', 'k3', 'hooks', 'wc'], 'hyp': 160000, 'shards': 16},
 }
 
 ALPHABET = [['pause', 'p'], ['play'], ['kill', 'kt'], ['resume', 1], ['fail', 'f']]
@@ -42,6 +43,12 @@ LATE3 = {'steps': [gen.S([['soon', 'raise', 'l3']], ['wait', 1, None, None]), ge
 
 
 def enumerate_cases(tier, scope):
+    if scope == 'wc':
+        for name in gen.WC_CATALOGUE:
+            for k in (1, 2):
+                for sched in gen.schedules([a for a in ALPHABET if a[0] != 'resume'] + gen.WC_EVENTS, k, 3):
+                    yield dict(gen.base(name), schedule=sched, tag=f'wc:{name}')
+        return
     if scope == 'hooks':
         for name in ('wait1', 'chain', 'async2', 'selfkill', 'failing', 'sync3'):
             for hook in gen.HOOK_SITES:
@@ -85,11 +92,11 @@ def execute(case):
         ex.start()
         first_state = ex.samples[0][1]
         ex.run_schedule()
-        ex.settle(play=True, resumes=[1, 2, 3, 4, 5, 6], open_gates=True)
+        ex.settle(play=True, resumes=None if 'outline' in case else [1, 2, 3, 4, 5, 6], open_gates=True)
         n_before_pm = len(ex.samples)
         terminated_before_pm = ex.proc.has_terminated()
         # post-mortem burst: every control call once more, all pending callbacks drained
-        for ev in (['pause', 'pm'], ['play'], ['kill', 'pm'], ['resume', 9], ['fail', 'pm'], ['play']):
+        for ev in (['pause', 'pm'], ['play'], ['kill', 'pm'], ['resume', NOVALUE], ['fail', 'pm'], ['play']):
             ex.event(ev, who='postmortem')
             ex.drain()
         ex.settle(play=True, resumes=[], open_gates=True)
